@@ -8,6 +8,49 @@
 extern "C" int omp_get_num_procs(void) { return vf::g_fake_procs; }
 #endif
 
+// Guard pages behind file mappings.  AddressSanitizer does not track mmap'ed files, so a read a few bytes past the end of the mapped
+// file (C17: "... or the mapped file") would be silent.  The executable's own mmap/munmap take precedence over libc's: a file-backed
+// mapping requested without an address is placed at the start of a PROT_NONE reservation one page longer than the (page-rounded)
+// length, so the page after the file is inaccessible and an over-read faults when the file ends exactly on a page boundary (the
+// generator steers a share of the files to such sizes).  Everything else is passed through to the kernel unchanged.
+#include <sys/mman.h>
+#include <sys/syscall.h>
+#include <unistd.h>
+namespace {
+struct GuardedMap {
+    void *addr;
+    size_t total;
+};
+GuardedMap g_maps[64];
+inline void *raw_mmap(void *a, size_t l, int p, int f, int fd, off_t o) { return (void *) syscall(SYS_mmap, a, l, p, f, fd, o); }
+} // namespace
+extern "C" void *mmap(void *addr, size_t len, int prot, int flags, int fd, off_t off) noexcept {
+    if (addr != nullptr || fd < 0 || len == 0 || (flags & MAP_FIXED)) return raw_mmap(addr, len, prot, flags, fd, off);
+    const size_t page = 4096, rounded = (len + page - 1) / page * page, total = rounded + page;
+    void *res = raw_mmap(nullptr, total, PROT_NONE, MAP_PRIVATE | MAP_ANONYMOUS, -1, 0);
+    if (res == MAP_FAILED) return raw_mmap(addr, len, prot, flags, fd, off);
+    void *m = raw_mmap(res, len, prot, flags | MAP_FIXED, fd, off);
+    if (m == MAP_FAILED) {
+        syscall(SYS_munmap, res, total);
+        return MAP_FAILED;
+    }
+    for (auto &g: g_maps)
+        if (g.addr == nullptr) {
+            g = {res, total};
+            break;
+        }
+    return res;
+}
+extern "C" int munmap(void *addr, size_t len) noexcept {
+    for (auto &g: g_maps)
+        if (g.addr == addr && addr != nullptr) {
+            size_t total = g.total;
+            g.addr = nullptr;
+            return (int) syscall(SYS_munmap, addr, total); // the reservation goes with the mapping
+        }
+    return (int) syscall(SYS_munmap, addr, len);
+}
+
 namespace vf {
 using MapFn = CaseResult (*)(const RunCtx &, TapeReader &, unsigned size_hint);
 #define VF_DECL(ID) extern const MapFn MAPPED_TABLE_##ID[6];
